@@ -882,6 +882,9 @@ func runCluster(cfg OConfig, seed uint64, res *sim.Result, tp *tape, base string
 			}
 			r -= x
 		}
+		if traceSteps {
+			res.Log.Logf("%d kind=%d t=%d inflight=%d", c.step, k, time.Since(t0).Microseconds(), len(c.inflight))
+		}
 		switch k {
 		case 0:
 			i := tp.choice(len(c.inflight))
